@@ -117,6 +117,11 @@ func CallCDecl(dst, c string, args ...any) M {
 	return M{"k": "callc", "dst": dst, "decl": true, "c": c, "args": B(args...)}
 }
 
+// TCall is `return f(args)`: a call in tail position.
+func TCall(f string, args ...any) M {
+	return M{"k": "tcall", "f": f, "args": B(args...)}
+}
+
 // ACall is `dst = f(args).await_sync` on an async method.
 func ACall(dst, f string, args ...any) M {
 	return M{"k": "acall", "dst": dst, "decl": false, "f": f, "args": B(args...)}
